@@ -26,7 +26,8 @@ impl<T: VecValue, SI: VecIndex> AggFold<Option<T>, SI, SI, T> for Sparse {
             let next_first = mapping
                 .get(idx + 1)
                 .map(|h| h.to_usize())
-                .unwrap_or(source_len);
+                .unwrap_or(source_len)
+                .min(source_len);
 
             if next_first == 0 || current_first >= next_first {
                 slot_map.push(None);
@@ -55,7 +56,8 @@ impl<T: VecValue, SI: VecIndex> AggFold<Option<T>, SI, SI, T> for Sparse {
         let next_first = mapping
             .get(index + 1)
             .map(|h| h.to_usize())
-            .unwrap_or(source_len);
+            .unwrap_or(source_len)
+            .min(source_len);
 
         if next_first == 0 || current_first >= next_first {
             return Some(None);
